@@ -6,17 +6,18 @@ from core import hx, unhx
 LEAN_MODULE = 'QM.Props.C16'
 TYPES = ['image', 'volume', 'network', 'pod', 'kube', 'build', 'container']
 THEOREMS = ([f'Cv.C16_{t}_rejects' for t in TYPES] + [f'Cv.C16_{t}_rejects_quadlet' for t in TYPES] +
-            ['Cv.C16_names_first', 'Cv.C16_clean_passes'] +
+            ['Cv.C16_names_first', 'Cv.C16_clean_passes'] + [f'Cv.C16_{t}_accepts' for t in TYPES] +
             [f'Conform.supported_{t}' for t in TYPES + ['quadlet', 'extensions']] + ['Conform.unknown_key_checks'])
 ASSUMPTIONS = [
     'Spec.documented_* (lean/QM/Spec/Keys.lean, spec/keys.json) is the frozen table of documented keys per unit type, seeded from the pinned tree',
     'Cv.from* are hand-written models of the converters; tied to convert.rs by the convert correspondence on generated units (all types, all keys, near-miss keys)',
-    '"documented keys with valid values are never rejected because of their keys" is proved at the level of the key check (C16_clean_passes) and checked on real conversions; that no later step raises UnknownKey is checked by the oracle, not proved',
+    '"documented keys are never rejected because of their keys" is proved for every converter model (C16_<type>_accepts: with documented keys only in the own section and [Quadlet], no step — key check, handlers, monadic folds — can end in an unknown-key error) and checked on real conversions',
 ]
 LEVEL_TEXT = ('Proof: for each of the seven converter models, Lean theorems show that a key of the unit\'s own section or of [Quadlet] that is not in '
               'the supported table makes the conversion return the UnknownKey error naming the first such key in file order (for every unit, every '
-              'key string — exact matching, so case changes and one-character edits are covered), and that a unit whose keys are all in the table '
-              'passes the key check. The supported tables are extracted from constants.rs on every run and proved equal, as sets, to the frozen '
+              'key string — exact matching, so case changes and one-character edits are covered), and conversely that a unit whose keys are all in '
+              'the tables is never rejected with UnknownKey by any step of the converter (C16_<type>_accepts: the key check is the only source '
+              'of that error; every handler and every monadic fold is shown to raise other errors only). The supported tables are extracted from constants.rs on every run and proved equal, as sets, to the frozen '
               'documented tables (decide over the finite tables); the two check_for_unknown_keys call sites per converter are extracted and '
               'compared too. Model tied by correspondence; oracle: near-miss keys on the real converter incl. the error text.')
 LEVEL_NOTE = 'Trusted: Lean kernel; extractor; frozen documented tables; correspondence on generated units. For .container the theorems cover units whose Mount= values are inside the modelled CSV subset.'
